@@ -1,0 +1,22 @@
+// Copyright 2022 The Go Authors. All rights reserved.
+// Use of this source code is governed by a BSD-style
+// license that can be found in the LICENSE file.
+
+//go:build verif
+
+// Machine-checked contracts for package query (//@ lines, read by
+// /verif/gocv).  Compiled only under the "verif" tag; comment-only.
+
+package query
+
+// SplitWords never indexes outside its buffers, terminates, and returns only
+// non-empty words (the splitting rule itself is checked by the bounded round
+// trip of C19).
+//@ func SplitWords(q string) (words []string)
+//@   props C19
+//@   ensures forall k int :: 0 <= k < len(words) ==> len(words[k]) >= 1
+//@   loop 1:
+//@     invariant 0 <= r <= len(q) + 1 && 0 <= w <= r && w <= len(word) && len(word) == len(q) && unchanged()
+//@     invariant len(words) == 0 || fresh(words)
+//@     invariant forall k int :: 0 <= k < len(words) ==> len(words[k]) >= 1
+//@     decreases len(q) + 1 - r
